@@ -193,7 +193,28 @@ func ruleST1(c *Ctx) {
 	okPref := len(plansRet) >= 1 && len(oldRet) == 1
 	if okPref {
 		// events.jsonl only when plans is absent and events exists
-		okPref = mustPassEdges(ch, oldRet[0].Block(), statOf("plans.jsonl", false)) && mustPassEdges(ch, oldRet[0].Block(), statOf("events.jsonl", true))
+		okPref = mustPassEdges(ch, oldRet[0].Block(), statOf("events.jsonl", true))
+		if okPref && !mustPassEdges(ch, oldRet[0].Block(), statOf("plans.jsonl", false)) {
+			// "present" may ask more of the entry than that it exists (not a directory): then the legacy name is reached
+			// either because Stat(plans) failed or because the entry found is not a log. What makes it the *second* choice
+			// is the order: plans.jsonl is probed first - its probe dominates the probe of events.jsonl and the legacy
+			// return - and a present plans.jsonl returns at once (checked below)
+			probeOf := func(name string) *ssa.BasicBlock {
+				for _, call := range callsNamed(ch, "os.Stat") {
+					j, _ := callOf(resolve(call.Common().Args[0]))
+					if j == nil || calleeFullName(&j.Call) != "path/filepath.Join" {
+						continue
+					}
+					el := variadicElems(j.Call.Args)
+					if sname, _ := constString(el[len(el)-1]); sname == name {
+						return call.Block()
+					}
+				}
+				return nil
+			}
+			pp, pe := probeOf("plans.jsonl"), probeOf("events.jsonl")
+			okPref = pp != nil && pe != nil && pp != pe && pp.Dominates(pe) && pp.Dominates(oldRet[0].Block())
+		}
 		// some plans return is dominated by Stat(plans)==nil, another is the fallback
 		hasExist := false
 		for _, r := range plansRet {
